@@ -289,12 +289,12 @@ def split : List Nat → List Nat → List (List (List Nat))
 /-- `⌈a / b⌉` for `b > 0` -/
 def ceilDiv (a b : Nat) : Nat := (a + b - 1) / b
 
-/-- `make_asymmetric_error_set(num_qubit, distance, weight_z = p/q)` (`_internal.py:61-78`, after fix b728c8a:
-`nxy` ranges over `range(min(num_qubit+1, distance))`). -/
-def asymErrorSet (n d p q : Nat) : List (List (Nat × Nat)) :=
+/-- `make_asymmetric_error_set` (`_internal.py:61-78`, after fix b728c8a: `nxy` ranges over
+`range(min(num_qubit+1, distance))`) with the bound `tmp0` on the number of Z's left abstract:
+`bound nxy` stands for `int(np.ceil((distance-nxy)/weight_z))`. -/
+def asymErrorSetB (n d : Nat) (bound : Nat → Nat) : List (List (Nat × Nat)) :=
   (List.range (min (n + 1) d)).flatMap fun nxy =>
-    let bound := ceilDiv ((d - nxy) * q) p
-    (List.range (min (n - nxy + 1) bound)).flatMap fun nz =>
+    (List.range (min (n - nxy + 1) (bound nxy))).flatMap fun nz =>
       if nxy == 0 && nz == 0 then [] else
       (List.range (nxy + 1)).flatMap fun nx =>
         let ny := nxy - nx
@@ -302,6 +302,50 @@ def asymErrorSet (n d p q : Nat) : List (List (Nat × Nat)) :=
           match ss with
           | [ix, iy, iz] => ix.map (·, 1) ++ iy.map (·, 2) ++ iz.map (·, 3)
           | _ => []
+
+/-- `make_asymmetric_error_set(num_qubit, distance, weight_z = p/q)` in exact arithmetic:
+`tmp0 = ⌈(d - nxy)·q / p⌉`. -/
+def asymErrorSet (n d p q : Nat) : List (List (Nat × Nat)) :=
+  asymErrorSetB n d fun nxy => ceilDiv ((d - nxy) * q) p
+
+/-! #### the bound as the implementation computes it: binary64 division, then `ceil` -/
+
+/-- `2^t` for an integer exponent -/
+def ratTwoPow (t : Int) : Rat :=
+  match t with
+  | .ofNat k => ((2 ^ k : Nat) : Int)
+  | .negSucc k => 1 / (((2 ^ (k + 1) : Nat) : Int) : Rat)
+
+/-- nearest integer, ties to even -/
+def roundHalfEven (r : Rat) : Int :=
+  let f := r.floor
+  let d := r - f
+  if d < 1 / 2 then f else if 1 / 2 < d then f + 1 else if f % 2 = 0 then f else f + 1
+
+/-- exponent `t` with `2^52 ≤ r·2^t < 2^53` for `r > 0` (from the bit lengths of numerator and denominator) -/
+def f64Shift (r : Rat) : Int :=
+  let e0 : Int := (Nat.log2 r.num.natAbs : Int) - (Nat.log2 r.den : Int)
+  -- 2^e0 / 2 < r < 2^e0 * 2
+  let e : Int := if ratTwoPow e0 ≤ r then e0 else e0 - 1
+  52 - e
+
+/-- round a positive rational to the nearest binary64 (normal range, no overflow): IEEE 754 round-to-nearest-even -/
+def f64Round (r : Rat) : Rat :=
+  if r ≤ 0 then 0 else
+  let t := f64Shift r
+  (roundHalfEven (r * ratTwoPow t) : Rat) / ratTwoPow t
+
+/-- `-(⌊-r⌋)` -/
+def ratCeil (r : Rat) : Int := -((-r).floor)
+
+/-- `int(np.ceil(a / w))` for an integer `a` and the binary64 number `w > 0` given by its bit pattern:
+the quotient is the correctly rounded binary64 division (`a` is exactly representable), `ceil` is exact. -/
+def fceilDiv (a : Nat) (wBits : Nat) : Nat :=
+  (ratCeil (f64Round (((a : Int) : Rat) / ratOfFloatBits wBits))).toNat
+
+/-- `make_asymmetric_error_set(num_qubit, distance, weight_z)` for a binary64 `weight_z` (bit pattern) -/
+def asymErrorSetF (n d wBits : Nat) : List (List (Nat × Nat)) :=
+  asymErrorSetB n d fun nxy => fceilDiv (d - nxy) wBits
 
 /-- canonical form of an error given as (qubit, symbol) list: the string of `n` symbols -/
 def sparseToSyms (n : Nat) (l : List (Nat × Nat)) : List Nat :=
@@ -403,20 +447,77 @@ def allSyms : Nat → List (List Nat)
 
 def symWeight (l : List Nat) : Nat := (l.filter (· != 0)).length
 
-/-- for one Pauli string: `(|Σ_a M_aa|², Σ_ab |M_ab|²)` with `M_ab = ⟨v_a|P|v_b⟩` (scaled by `2^h`) -/
-def enumTerm (n : Nat) (cw : List (Array GInt)) (l : List Nat) : Int × Int :=
-  let p := MP.ofSyms l
-  let imgs := cw.map (pauliTab n p)
-  let tr : GInt := (cw.zip imgs).foldl (fun acc si => acc + innerA si.1 si.2) 0
-  let b : Int := cw.foldl (fun acc v => imgs.foldl (fun acc' im => acc' + gnormSq (innerA v im)) acc) 0
-  (gnormSq tr, b)
+/-! ### weight enumerators (`quantum_weight_enumerator`, `_internal.py:99-127`)
 
-/-- `(K²·4^h·A_j, K·4^h·B_j)` for `j = 0..n` (`quantum_weight_enumerator`, `_internal.py:99-127`, which
-returns `j = 1..n`) on the model code words -/
-def weightEnum (c : Code) : List (Int × Int) :=
-  let cw := (List.range c.K).map (codewordTab c)
-  let terms := (allSyms c.n).map fun l => (symWeight l, enumTerm c.n cw l)
-  (List.range (c.n + 1)).map fun j =>
-    terms.foldl (fun acc t => if t.1 == j then (acc.1 + t.2.1, acc.2 + t.2.2) else acc) (0, 0)
+Generic in the scalar type (`Conj α` is complex conjugation): the driver runs it at `GInt` on the tabulated
+code words, the theorems instantiate `conj := star`. -/
+
+section Enum
+variable {α : Type} [Add α] [Sub α] [Neg α] [Mul α] [Zero α] [One α] [Conj α]
+
+def sumL (l : List α) : α := l.foldr (· + ·) 0
+
+/-- `Σ_{i<2^n} conj(u_i) v_i` (`code_conj @ q0.T`, one entry) -/
+def ipL (n : Nat) (u v : Nat → α) : α := sumL ((List.range (2 ^ n)).map fun i => conj (u i) * v i)
+
+/-- `tmp0[a,b] = ⟨c_a| P |c_b⟩` -/
+def matEl (I : α) (n : Nat) (p : MP) (u v : Nat → α) : α := ipL n u (pauliAct I p v)
+
+/-- the two increments for one Pauli operator: `(|trace(tmp0)|², vdot(tmp0, tmp0))` -/
+def enumTerm (I : α) (n : Nat) (cw : List (Nat → α)) (p : MP) : α × α :=
+  let tr := sumL (cw.map fun a => matEl I n p a a)
+  (conj tr * tr, sumL (cw.map fun a => sumL (cw.map fun b => let m := matEl I n p a b; conj m * m)))
+
+/-- the operators of weight `w + 1` in the order of the two generators
+(`combinations(range(n), weight)` × `product([X,Y,Z], repeat=weight)`) -/
+def enumOps (n w : Nat) : List MP :=
+  (combs (List.range n) (w + 1)).flatMap fun qs => (prods (w + 1)).map fun gs => MP.ofSparse (qs.zip gs)
+
+/-- `(retA[w], retB[w])` before the final division by `K²` resp. `K`: sums over the operators of weight `w + 1` -/
+def enumLevel (I : α) (n : Nat) (cw : List (Nat → α)) (w : Nat) : α × α :=
+  let ts := (enumOps n w).map (enumTerm I n cw)
+  (sumL (ts.map (·.1)), sumL (ts.map (·.2)))
+
+/-- model of `quantum_weight_enumerator(code)`: entry `w` is `(K²·A_{w+1}, K·B_{w+1})` for `w = 0..n-1`
+(weight 0 is left out by the implementation; with vectors scaled by `√2^h` there is an extra factor `4^h`) -/
+def weightEnum (I : α) (n : Nat) (cw : List (Nat → α)) : List (α × α) :=
+  (List.range n).map (enumLevel I n cw)
+
+end Enum
+
+/-! ### Knill–Laflamme loss (`knill_laflamme_loss`, `_varqec.py:10-29`)
+
+`inner_product[e, a, b]` for `e < E`, `a, b < K` as a function into the Gaussian rationals.  The loss is
+`Σ_e Σ_{a<b} h(|M_e[a,b]|) + Σ_e Σ_a h(|M_e[a,a] - mean_a M_e[a,a]|)` with `h = id` (`'L1'`) or `h = (·)²` (`'L2'`):
+only the strict upper triangle enters (`np.triu(…, k=1)`). -/
+
+def QI.divNat (a : QI) (k : Nat) : QI := ⟨a.re / (k : Int), a.im / (k : Int)⟩
+
+def sumQI (l : List QI) : QI := l.foldr (· + ·) 0
+
+/-- `tmp1.mean(axis=1)`: mean of the diagonal of the `e`-th matrix -/
+def klMean (K : Nat) (M : Nat → Nat → Nat → QI) (e : Nat) : QI :=
+  QI.divNat (sumQI ((List.range K).map fun a => M e a a)) K
+
+/-- `|M_e[a,b]|²` for the strict upper triangle, all `e` -/
+def klOffTerms (E K : Nat) (M : Nat → Nat → Nat → QI) : List Rat :=
+  (List.range E).flatMap fun e => (List.range K).flatMap fun a =>
+    ((List.range K).filter fun b => a < b).map fun b => QI.normSq (M e a b)
+
+/-- `|M_e[a,a] - mean_e|²`, all `e`, `a` -/
+def klDiagTerms (E K : Nat) (M : Nat → Nat → Nat → QI) : List Rat :=
+  (List.range E).flatMap fun e => (List.range K).map fun a => QI.normSq (M e a a - klMean K M e)
+
+/-- `knill_laflamme_loss(inner_product, kind='L2')` -/
+def klLossL2 (E K : Nat) (M : Nat → Nat → Nat → QI) : Rat :=
+  (klOffTerms E K M).foldr (· + ·) 0 + (klDiagTerms E K M).foldr (· + ·) 0
+
+/-- for `kind='L1'` the loss is `Σ √t` over these terms (the square roots are taken outside the model) -/
+def klLossL1Radicands (E K : Nat) (M : Nat → Nat → Nat → QI) : List Rat :=
+  klOffTerms E K M ++ klDiagTerms E K M
+
+/-- the tabulated model code words as functions (driver) -/
+def codewordFns (c : Code) : List (Nat → GInt) :=
+  (List.range c.K).map fun a => ofArray (codewordTab c a)
 
 end Numqi.Qec
